@@ -81,6 +81,17 @@ func vc01SockHandler() dnsserver.Handler {
 			panic(fmt.Sprintf("vc01: server %q reports protocol %s", si.Name, si.Proto))
 		}
 
+		if vc01IsLate(req) {
+			// A slow pipeline: the answer is written when the request's deadline
+			// has already passed (as the server itself does with its SERVFAIL when
+			// a handler returns after the request time-out).
+			late := (&dns.Msg{}).SetReply(req)
+			ectx, cancel := context.WithDeadline(ctx, time.Now().Add(-time.Second))
+			defer cancel()
+
+			return rw.WriteMsg(ectx, req, late)
+		}
+
 		vc01Seen.Store(vc01SeenKey(req), req.Copy())
 		resp, mode := ref.Ref(req)
 		switch mode {
@@ -93,6 +104,16 @@ func vc01SockHandler() dnsserver.Handler {
 		return rw.WriteMsg(ctx, req, resp)
 	})
 }
+
+// vc01IsLate tells whether m is a "late" query (by name prefix).
+func vc01IsLate(m *dns.Msg) bool {
+	return len(m.Question) == 1 && strings.HasPrefix(strings.ToLower(m.Question[0].Name), "late-")
+}
+
+// vc01KnownSharedDeadline is the finding: a response written with an expired
+// context puts a past write deadline on the server's one shared UDP socket, and
+// a concurrent write of another query's response fails.
+const vc01KnownSharedDeadline = "udp-shared-socket-write-deadline"
 
 // vc01Seen keeps the last query the handler was given per question.
 var vc01Seen sync.Map
@@ -168,6 +189,8 @@ type vc01Net struct {
 	metrics          *vc01Metrics
 	udpAddr, tcpAddr string
 	btdAddr, btdWhy  string // plain DNS behind a bind-to-device listener (UDP and TCP)
+	dualPort         int    // plain DNS on the dual-stack wildcard [::]:port; 0 if absent
+	dualWhy          string
 	dotAddr          string
 	tlsClient        *tls.Config
 	dohAddr          net.Addr // TLS, h2
@@ -225,6 +248,7 @@ func vc01Start(t *testing.T) *vc01Net {
 	n.tcpAddr, n.udpAddr = srv.LocalTCPAddr().String(), srv.LocalUDPAddr().String()
 
 	n.startBTD(t, base(dnsserver.ProtoDNS, dnsserver.NetworkAny))
+	n.startDual(t, base(dnsserver.ProtoDNS, dnsserver.NetworkAny))
 
 	tlsConf := dnsservertest.CreateServerTLSConfig("example.org")
 	n.tlsClient = tlsConf.Clone()
@@ -320,6 +344,82 @@ func vc01Start(t *testing.T) *vc01Net {
 	})
 
 	return n
+}
+
+// startDual starts a plain-DNS server on the dual-stack wildcard address
+// [::]:port, where the local address a datagram was sent to is only known from
+// the control message.
+func (n *vc01Net) startDual(t *testing.T, conf dnsserver.ConfigBase) {
+	conf.Addr = "[::]:0"
+	for i := 0; i < 20; i++ {
+		srv := dnsserver.NewServerDNS(dnsserver.ConfigDNS{ConfigBase: conf, MaxUDPRespSize: dns.MaxMsgSize})
+		err := srv.Start(context.Background())
+		if err != nil {
+			n.dualWhy = err.Error()
+			if !strings.Contains(err.Error(), "in use") {
+				return
+			}
+
+			continue
+		}
+
+		t.Cleanup(func() { _ = srv.Shutdown(context.Background()) })
+		// Both families must be reachable.
+		port := srv.LocalUDPAddr().(*net.UDPAddr).Port
+		for _, a := range []string{"127.0.0.1", "::1"} {
+			c, derr := net.Dial("udp", net.JoinHostPort(a, strconv.Itoa(port)))
+			if derr != nil {
+				n.dualWhy = derr.Error()
+
+				return
+			}
+
+			sw, _ := vc01Sentinel(nil)
+			_, _ = c.Write(sw)
+			_ = c.SetReadDeadline(time.Now().Add(2 * time.Second))
+			_, rerr := c.Read(make([]byte, 4096))
+			_ = c.Close()
+			if rerr != nil {
+				n.dualWhy = "no answer on " + a + ": " + rerr.Error()
+
+				return
+			}
+		}
+
+		n.dualPort, n.dualWhy = port, ""
+
+		return
+	}
+}
+
+// vc01From sends wire from an UNCONNECTED socket bound to src to dst:port and
+// returns the first datagram that comes back with the address it came from (a
+// connected socket, which every stub resolver uses, would only see it if that
+// address is dst).
+func vc01From(src, dst string, port int, wire []byte) (msg []byte, from string, err error) {
+	c, err := net.ListenPacket("udp", net.JoinHostPort(src, "0"))
+	if err != nil {
+		return nil, "", vc01Env("binding %s: %w", src, err)
+	}
+	defer c.Close()
+
+	ra, err := net.ResolveUDPAddr("udp", net.JoinHostPort(dst, strconv.Itoa(port)))
+	if err != nil {
+		return nil, "", fmt.Errorf("harness: %w", err)
+	}
+
+	if _, err = c.WriteTo(wire, ra); err != nil {
+		return nil, "", vc01Env("writing to %s: %w", ra, err)
+	}
+
+	_ = c.SetReadDeadline(time.Now().Add(vc01Wait))
+	buf := make([]byte, 65536)
+	nr, fa, err := c.ReadFrom(buf)
+	if err != nil {
+		return nil, "", vc01Env("no datagram came back to %s for a query sent to %s: %w", c.LocalAddr(), ra, err)
+	}
+
+	return buf[:nr], fa.(*net.UDPAddr).IP.String(), nil
 }
 
 // startBTD starts a second plain-DNS server that is fed, as with configured
@@ -478,9 +578,9 @@ func vc01Datagrams(addr string, inputs [][]byte, expect int, enc func([]byte) ([
 
 	buf := make([]byte, 65536)
 	deadline := time.Now().Add(vc01Wait)
-	sentinels := 0
+	sentinels, counted := 0, 0
 	for {
-		waiting := sentinels == 0 || len(r.Msgs) < expect
+		waiting := sentinels == 0 || counted < expect
 		if waiting {
 			_ = c.SetReadDeadline(deadline)
 		} else {
@@ -509,6 +609,10 @@ func vc01Datagrams(addr string, inputs [][]byte, expect int, enc func([]byte) ([
 			}
 
 			continue
+		}
+
+		if uerr := m.Unpack(b); uerr != nil || !vc01IsLate(m) {
+			counted++
 		}
 
 		r.Msgs = append(r.Msgs, append([]byte(nil), b...))
@@ -894,6 +998,40 @@ func vc01SocketCase(t *rapid.T, st *vstat.Stats, n *vc01Net, in ref.Input) {
 		judge(ref.TCP.Named("tcp-btd"), c, r, err, ref.CheckOpts{}, true)
 	}
 
+	// Dual-stack wildcard listener: the answer must come from the address the
+	// query was sent to, whatever the family and whether or not that address is
+	// the kernel's default source towards the client.
+	if n.dualPort != 0 && len(wire) <= dns.MinMsgSize && expectsReply(ref.UDP) {
+		for _, pr := range []struct{ class, src, dst string }{
+			{"udp-dualstack-wildcard-default-local-v4", "127.0.0.1", "127.0.0.1"},
+			{"udp-dualstack-wildcard-nondefault-local-v4", "127.0.0.1", "127.0.0.2"},
+			{"udp-dualstack-wildcard-nondefault-local-v4", "127.0.0.3", "127.0.0.7"},
+			{"udp-dualstack-wildcard-v6", "::1", "::1"},
+		} {
+			var msg []byte
+			var from string
+			_, err = vc01Attempt(func() (ref.Result, error) {
+				var ferr error
+				msg, from, ferr = vc01From(pr.src, pr.dst, n.dualPort, wire)
+
+				return ref.Result{}, ferr
+			})
+			judge(ref.UDP.Named("udp-dualstack"), c, ref.Result{Msgs: [][]byte{msg}}, err, ref.CheckOpts{}, false)
+			if from != pr.dst {
+				fail("udp-dualstack", fmt.Errorf("query sent from %s to %s:%d on the dual-stack wildcard listener was answered from %s: a connected socket never sees that answer", pr.src, pr.dst, n.dualPort, from))
+			}
+
+			classes = append(classes, pr.class)
+		}
+
+		for _, dst := range []string{"127.0.0.2", "::1"} {
+			r, err = vc01Attempt(func() (ref.Result, error) {
+				return n.tcpRaw(net.JoinHostPort(dst, strconv.Itoa(n.dualPort)), vc01Frame(wire), split, vc01Identity)
+			})
+			judge(ref.TCP.Named("tcp-dualstack"), c, r, err, ref.CheckOpts{}, false)
+		}
+	}
+
 	// A decoy is another, acceptable query offered through the parameters of
 	// the encodings that are NOT in use; it must be ignored.
 	decoyMsg := (&dns.Msg{}).SetQuestion("k0.decoy.test.", dns.TypeAAAA)
@@ -1107,6 +1245,87 @@ func vc01SocketCase(t *rapid.T, st *vstat.Stats, n *vc01Net, in ref.Input) {
 				return vc01Datagrams(n.udpAddr, wires, expect, vc01Identity, vc01Identity)
 			})
 			match(ref.UDP, dgramCases, r, err)
+		}
+
+		// The same burst with 1-3 "late" queries in flight on the same socket:
+		// their answers are written with an expired context.  The normal queries
+		// must be answered as ever; the late ones are not judged beyond "at most
+		// one response each".
+		var normals []*ref.Case
+		for _, cc := range dgramCases {
+			if k, _, _ := cc.Expect(ref.UDP); k == ref.MustReply {
+				normals = append(normals, cc)
+			}
+		}
+
+		lateBurst := func(tr ref.Transport, addr string) {
+			nLate := rapid.IntRange(1, 3).Draw(t, "nLate")
+			var wires [][]byte
+			for _, cc := range normals {
+				wires = append(wires, cc.Wire)
+			}
+
+			for i := 0; i < nLate; i++ {
+				lm := (&dns.Msg{}).SetQuestion(fmt.Sprintf("late-%d.k0.test.", i), dns.TypeA)
+				lm.Id = 0xe000 + uint16(i)
+				lw, _ := lm.Pack()
+				at := rapid.IntRange(0, len(wires)-1).Draw(t, "lateAt")
+				wires = append(wires[:at], append([][]byte{lw}, wires[at:]...)...)
+			}
+
+			r, lerr := vc01Attempt(func() (ref.Result, error) {
+				return vc01Datagrams(addr, wires, len(normals), vc01Identity, vc01Identity)
+			})
+			class := tr.Name + ":normal-query-in-flight-with-expired-context-write"
+			classes = append(classes, class)
+			var normalReplies [][]byte
+			lateSeen := map[uint16]int{}
+			for _, m := range r.Msgs {
+				dm := &dns.Msg{}
+				if uerr := dm.Unpack(m); uerr == nil && vc01IsLate(dm) {
+					lateSeen[dm.Id]++
+					if lateSeen[dm.Id] > 1 {
+						fail(tr.Name, fmt.Errorf("late query %d was answered %d times", dm.Id, lateSeen[dm.Id]))
+					}
+
+					continue
+				}
+
+				normalReplies = append(normalReplies, m)
+			}
+
+			if lerr == nil {
+				lerr = ref.MatchReplies(len(normals), normalReplies, func(int) bool { return true }, func(i int, msg []byte) error {
+					_, _, jerr := ref.Judge(tr, normals[i], ref.Result{Msgs: [][]byte{msg}}, ref.CheckOpts{})
+
+					return jerr
+				})
+			}
+
+			if lerr != nil {
+				if st.Known(vc01KnownSharedDeadline) {
+					classes = append(classes, class+":known-finding")
+
+					return
+				}
+
+				var te *vc01Timeout
+				if errors.As(lerr, &te) {
+					// Not a time-out verdict: report what is missing as observed.
+					lerr = fmt.Errorf("%d normal queries, %d late ones on one socket; normal replies received: %d: %w", len(normals), nLate, len(normalReplies), te.err)
+				}
+
+				st.Case("", classes...)
+				t.Fatalf("transport %s: %d normal queries (first %s) in flight on one socket with %d queries whose answer is written with an expired context:\n%v",
+					tr.Name, len(normals), ref.Hex(normals[0].Wire), nLate, lerr)
+			}
+		}
+
+		if len(normals) >= 2 {
+			lateBurst(ref.UDP, n.udpAddr)
+			if n.btdAddr != "" {
+				lateBurst(ref.UDP.Named("udp-btd"), n.btdAddr)
+			}
 		}
 
 		if both(ref.DoQ) {
@@ -1345,7 +1564,7 @@ func vc01SocketCase(t *rapid.T, st *vstat.Stats, n *vc01Net, in ref.Input) {
 }
 
 func TestVerifC01Sockets(t *testing.T) {
-	rule := "rapid inputs (structured valid queries, structured unacceptable messages, byte-level corruptions; see inpkg.accept) sent by real clients over loopback to servers started through dnsservertest: UDP, TCP, DoT, DoH h2 GET+POST, plain-HTTP/1.1 DoH, h3 (every case in thorough, 1/8 in quick), DoQ (correct and wrong length prefix), DNSCrypt UDP+TCP, a second plain-DNS server fed by a bindtodevice.Manager bound to lo (UDP+TCP, the interface-listener path), JSON API with every documented parameter drawn independently in all accepted spellings (name with/without dot, type/qc absent, empty, number, mnemonic; cd/do/sde absent, empty, 0/false/False, 1/true/True; one invalid value sometimes; ct) incl. ct=dns-message, the query the handler was given compared with what the client expressed, and the wire answer compared with that to the equivalent wire-format POST; servers configured as the real stack does (poisoning disposer, reading metrics listener, deadline contexts, handler requiring ServerInfo/RequestInfo); TCP/DoT frames written in two segments at drawn offsets; POST bodies without content-length (chunked); decoy parameters of the other DoH encodings; framing faults (short / empty frame, two queries in one DoQ stream, two dns parameters, PUT); for half of the valid cases a near miss (one component changed) is sent pipelined with the input on one TCP and one DoT connection, one UDP socket, two DoQ streams in flight and two concurrent h2 requests, replies matched as a multiset; oracle = documented per-transport treatment + reference handler + pairwise agreement of complete answers + survival probe after unacceptable input; non-trivial = accepted query with non-empty / non-NOERROR / absent reference answer or unacceptable input >= 12 octets; distinct by (transport, wire bytes)"
+	rule := "rapid inputs (structured valid queries, structured unacceptable messages, byte-level corruptions; see inpkg.accept) sent by real clients over loopback to servers started through dnsservertest: UDP, TCP, DoT, DoH h2 GET+POST, plain-HTTP/1.1 DoH, h3 (every case in thorough, 1/8 in quick), DoQ (correct and wrong length prefix), DNSCrypt UDP+TCP, a plain-DNS server on the dual-stack wildcard [::]:port queried from unconnected IPv4 and IPv6 sockets at 127.0.0.1, 127.0.0.2, 127.0.0.7 and ::1 (the answer must come from the address the query was sent to) and over TCP, UDP bursts with 1-3 queries whose answer is written with an expired context in flight among the normal ones (also through the bind-to-device path), a second plain-DNS server fed by a bindtodevice.Manager bound to lo (UDP+TCP, the interface-listener path), JSON API with every documented parameter drawn independently in all accepted spellings (name with/without dot, type/qc absent, empty, number, mnemonic; cd/do/sde absent, empty, 0/false/False, 1/true/True; one invalid value sometimes; ct) incl. ct=dns-message, the query the handler was given compared with what the client expressed, and the wire answer compared with that to the equivalent wire-format POST; servers configured as the real stack does (poisoning disposer, reading metrics listener, deadline contexts, handler requiring ServerInfo/RequestInfo); TCP/DoT frames written in two segments at drawn offsets; POST bodies without content-length (chunked); decoy parameters of the other DoH encodings; framing faults (short / empty frame, two queries in one DoQ stream, two dns parameters, PUT); for half of the valid cases a near miss (one component changed) is sent pipelined with the input on one TCP and one DoT connection, one UDP socket, two DoQ streams in flight and two concurrent h2 requests, replies matched as a multiset; oracle = documented per-transport treatment + reference handler + pairwise agreement of complete answers + survival probe after unacceptable input; non-trivial = accepted query with non-empty / non-NOERROR / absent reference answer or unacceptable input >= 12 octets; distinct by (transport, wire bytes)"
 	required := []string{"verdict-accept", "undecodable-past-header", "verdict-response-bit", "verdict-notimp", "verdict-formerr", "kind-handler-error",
 		"kind-silent", "kind-large", "truncated-on-udp", "cross-transport-compared", "json", "doq:no-message", "doq:must-reply",
 		"dnscrypt-udp:must-reply", "dnscrypt-tcp:must-reply", "doh-h2-get:must-reply", "doh-h2-post:must-reply", "dot:must-reply",
@@ -1353,14 +1572,23 @@ func TestVerifC01Sockets(t *testing.T) {
 		"pipelined-near-miss", "tcp:pair", "dot:pair", "udp:pair", "doq:pair", "doh-h2:pair", "tcp-split-write", "doh-body-without-length",
 		"doh-decoy-params", "req-padding+keepalive", "root-name", "doq:fallback-servfail",
 		"json-do-only", "json-sde-only", "json-cd-only", "json-do+sde", "json-invalid-param", "json-type-default", "json-type-mnemonic",
-		"json-vs-wire-compared", "udp-btd:must-reply", "tcp-btd:must-reply"}
-	st := vstat.New("C01", "sockets", rule, required...)
+		"json-vs-wire-compared", "udp:normal-query-in-flight-with-expired-context-write"}
 	n := vc01Start(t)
-	if n.btdAddr == "" {
+	if n.btdAddr != "" {
+		required = append(required, "udp-btd:must-reply", "tcp-btd:must-reply", "udp-btd:normal-query-in-flight-with-expired-context-write")
+	} else {
 		fmt.Println("C01 bind-to-device part absent:", n.btdWhy)
-		st.Extra("bindtodevice", n.btdWhy)
-		st = vstat.New("C01", "sockets", rule, required[:len(required)-2]...)
 	}
+
+	if n.dualPort != 0 {
+		required = append(required, "udp-dualstack-wildcard-nondefault-local-v4", "udp-dualstack-wildcard-v6", "tcp-dualstack:must-reply")
+	} else {
+		fmt.Println("C01 dual-stack wildcard part absent:", n.dualWhy)
+	}
+
+	st := vstat.New("C01", "sockets", rule, required...)
+	st.Extra("bindtodevice-absent", n.btdWhy)
+	st.Extra("dualstack-absent", n.dualWhy)
 
 	st.Finish(t)
 	rapid.Check(t, func(t *rapid.T) {
